@@ -198,7 +198,22 @@ def check_property_file(ctx, pid, gen_status, gens_needed):
         if t in thms:
             ctx.obligation('theorem:' + t, good, '' if good else 'non-whitelisted assumptions: %s' % bad)
         allok = allok and good
+    if allok and ctx.thorough:
+        coqchk_property(ctx, pid)
     return allok
+
+
+def coqchk_property(ctx, pid, timeout=2400):
+    """thorough tier: re-check Properties/<pid>.vo and everything it depends on with the independent checker; record its axiom summary"""
+    with CoqLock():
+        rc, out = sh('timeout %d coqchk -silent -o -Q . OV OV.Properties.%s' % (timeout, pid), cwd=COQ, timeout=timeout + 30)
+    m = re.search(r'\* Axioms:(.*?)\n\s*\n\* Constants/Inductives relying on type-in-type', out, re.S)
+    axioms = [a.strip() for a in (m.group(1).split('\n') if m else []) if a.strip() and a.strip() != '<none>']
+    bad = [a for a in axioms if not (a.split(' ')[0].split('Coq.')[-1] in ALLOWED_AXIOMS or any(x in a for x in ALLOWED_AXIOMS)
+                                     or 'Reals' in a or 'PrimFloat' in a or 'Uint63' in a or 'Float' in a or 'Int63' in a)]
+    clean = rc == 0 and 'type-in-type: <none>' in out and 'unsafe (co)fixpoints: <none>' in out and 'positivity is assumed: <none>' in out
+    ctx.extra['coqchk'] = {'rc': rc, 'axioms': axioms[:60], 'summary_clean': clean}
+    ctx.obligation('coqchk:Properties/%s.vo' % pid, clean and not bad, '' if clean and not bad else ('coqchk rc=%d; unexpected axioms %s; %s' % (rc, bad[:5], out[-400:])))
 
 
 def coq_eval(name, header, body, timeout=900):
